@@ -1,10 +1,12 @@
 //@unit reg
-//@props C06,C11
+//@props C06,C11,C16
 //@verus --rlimit 100 --triggers-mode silent
 // Unit reg: model registration bookkeeping: simulation::add_model, BuildContext::{new, add_submodel}, SimInit::add_model
 // (simulation.rs, model/context.rs, simulation/sim_init.rs). C06: every model that belongs to the simulation - sub-models
 // included, to any depth - has exactly one mailbox observer registered under its qualified name. C11: the ModelId given to a
-// model's task indexes that model's own qualified name.
+// model's task indexes that model's own qualified name. C16 (third sentence): the name carried by a model's Context
+// (Task.name is the name of the Context handed to the model task) is its qualified name parent.child, and it is the name
+// under which the model appears in error reports (model_names[id], observers).
 //@rule SIMPATH :: simulation::add_model\( :: add_model( :: R7 module path of the single-file unit
 //@rule PUBSTRUCT :: ^(\s*)(?:pub(?:\(crate\))? )?struct :: \1pub struct :: R7
 //@rule PUBCRATE :: pub\(crate\) fn :: pub fn :: R7
@@ -257,15 +259,15 @@ impl<'a, P: ProtoModel> BuildContext<'a, P> {
             old(self).model_names@.len() < usize::MAX - 1,
         ensures
             // the sub-model, and its own sub-models, are registered like every other model ...
-            lockstep(old(self).model_names@, old(self).observers@, old(self).executor.tasks(),                //@ C06,C11 #submodels-registered-in-lockstep
-                     final(self).model_names@, final(self).observers@, final(self).executor.tasks()),         //@ C06,C11 #submodels-registered-in-lockstep
+            lockstep(old(self).model_names@, old(self).observers@, old(self).executor.tasks(),                //@ C06,C11,C16 #submodels-registered-in-lockstep
+                     final(self).model_names@, final(self).observers@, final(self).executor.tasks()),         //@ C06,C11,C16 #submodels-registered-in-lockstep
             final(self).executor.tasks().len() > old(self).executor.tasks().len(),                            //@ C06 #submodel-registered
             final(self).name == old(self).name,
             *final(final(self).model_names) == *final(old(self).model_names),
             *final(final(self).observers) == *final(old(self).observers),
             *final(final(self).executor) == *final(old(self).executor),
             // ... under the name parent.child
-            exists|nm: Seq<char>| final(self).executor.tasks().last().name == #[trigger] qualified(old(self).name@, nm),   //@ C06,C11 #submodel-qualified-name
+            exists|nm: Seq<char>| final(self).executor.tasks().last().name == #[trigger] qualified(old(self).name@, nm),   //@ C06,C11,C16 #submodel-qualified-name
         //@]
     {
         let mut submodel_name = name.into();
@@ -274,7 +276,7 @@ impl<'a, P: ProtoModel> BuildContext<'a, P> {
             submodel_name = string_from_lit("<unknown>");
         };
         submodel_name = str_concat3(self.name, ".", &submodel_name);
-        proof { assert(submodel_name@ == qualified(self.name@, given)); }     //@ C06,C11 #submodel-qualified-name
+        proof { assert(submodel_name@ == qualified(self.name@, given)); }     //@ C06,C11,C16 #submodel-qualified-name
 
         add_model(
             model,
@@ -307,11 +309,11 @@ pub fn add_model<P: ProtoModel>(
     ensures
         // C06 + C11: this model and every sub-model it builds get exactly one observer and one name each,
         // the observer watches that model's mailbox under that model's name, and the model's id indexes its name
-        lockstep(old(model_names)@, old(observers)@, old(executor).tasks(),                               //@ C06,C11 #registered-in-lockstep
-                 final(model_names)@, final(observers)@, final(executor).tasks()),                        //@ C06,C11 #registered-in-lockstep
+        lockstep(old(model_names)@, old(observers)@, old(executor).tasks(),                               //@ C06,C11,C16 #registered-in-lockstep
+                 final(model_names)@, final(observers)@, final(executor).tasks()),                        //@ C06,C11,C16 #registered-in-lockstep
         // the model itself is the last task spawned, under the given name, on the given mailbox
         final(executor).tasks().len() > old(executor).tasks().len(),                                      //@ C06 #model-registered
-        final(executor).tasks().last().name == name@,                                                     //@ C06,C11 #model-registered-under-its-name
+        final(executor).tasks().last().name == name@,                                                     //@ C06,C11,C16 #model-registered-under-its-name
         final(executor).tasks().last().mbox == mailbox.id(),                                              //@ C06 #observer-watches-the-models-mailbox
     //@]
 {
@@ -407,7 +409,7 @@ impl SimInit {
             self.registered(), self.model_names@.len() < usize::MAX - 1,
         ensures
             // C06: the observers are exactly the mailboxes of the models that belong to the simulation
-            r.registered(),                                                                   //@ C06,C11 #all-models-registered
+            r.registered(),                                                                   //@ C06,C11,C16 #all-models-registered
             r.observers@.len() == r.model_names@.len() && r.observers@.len() == r.executor.tasks().len(),   //@ C06 #one-observer-per-model
             r.executor.tasks().len() > self.executor.tasks().len(),
             r.executor.tasks().last().mbox == mailbox.id(),                                   //@ C06 #observer-watches-the-models-mailbox
